@@ -434,6 +434,9 @@ def alphabet(S, A, unit, sectors, lean=False):
         # call may raise; after re-positioning, later operations are unaffected by what the failed call left behind
         for k in (1, 2, 3):
             ops.append(("io-fault", k, S + 5))
+        # a second, short-lived object over the same handle / parent object is created, used and dropped (garbage collected):
+        # the caller's handles and the parent stay open and usable
+        ops.append(("sibling",))
     if sectors and not lean:
         # a request that cannot be served (runs far past the end of the disk): whatever it does -- raise or return short --
         # later operations must not be affected by it
@@ -476,6 +479,35 @@ def _apply_impl(stream, reader, op):
             reader(op[1], op[2])
         except Exception:
             pass
+        return None
+    if k == "sibling":
+        import gc
+
+        sib = None
+        try:
+            fh = getattr(stream, "fh", None)
+            cls_ = type(stream)
+            name = cls_.__name__
+            if name == "QCow2":
+                kw = {}
+                if getattr(stream, "backing_file", None) is not None:
+                    kw["backing_file"] = stream.backing_file
+                if getattr(stream, "data_file", None) is not None and stream.data_file is not fh:
+                    kw["data_file"] = stream.data_file
+                sib = cls_(fh, **kw)
+            elif name in ("HDS", "VDI"):
+                sib = cls_(fh, parent=stream.parent) if getattr(stream, "parent", None) is not None else cls_(fh)
+            elif name == "VHD":
+                sib = cls_(fh)
+            elif name == "VMDK" and len(getattr(stream, "disks", [])) == 1 and hasattr(stream.disks[0], "fh") and stream.parent is None:
+                sib = cls_(stream.disks[0].fh)
+            if sib is not None:
+                sib.seek(0)
+                sib.read(1)
+        except Exception:
+            pass
+        del sib
+        gc.collect()
         return None
     if k == "io-fault":
         hs = [h for h in _handles(stream) if hasattr(h, "fail_after")]
@@ -523,7 +555,7 @@ def _apply_model(m, op):
     if op[0] == "io-fault":
         m.apply(("seek", 0, 0))
         return None
-    if op[0] in ("disturb", "fail_sectors"):
+    if op[0] in ("disturb", "fail_sectors", "sibling"):
         return None
     if op[0] == "read_sectors":
         return m.disk.content(op[1] * 512, op[2] * 512)
